@@ -14,7 +14,8 @@ oracle     any RQ the resolver emits that fails a clause is reported with the pr
            missing-id panic on an RQ that passed rq_wf contradicts wf_implies_lookups_total; identifiers are only names:
            rq_to_sql gives the same SQL under an order-preserving renaming of the ids, and IdGenerator::load refuses ids
            above usize::MAX / 2 exactly as idgen_load (Model/Lowerer.v) says.
-findings   open: F1 (carried sort not visible), F6 (relation parameter used twice), F7 (excluded column of a sub-pipeline).
+findings   open: F1 (carried sort not visible), F6 (relation parameter used twice), F7 (excluded column of a sub-pipeline),
+           F8 (top-level scalar let mentioned twice), F9 (select in a group body drops the group key).
            fixed in /repo and therefore never returned by a classifier: F2 (8f24a64), F3 (7911778), F4 (3b8ac37), F5 (592b6f8),
            and the plain-aggregate half of F1 (8d54bf7).
 """
@@ -36,8 +37,10 @@ TRUSTED = [
     "node_mapping, pipeline buffer and table_buffer; it is tied to the code operation by operation: hook 120eb8c `lowerer-op-trace` logs every "
     "operation on that state, vplib/props/c16_trace.py groups the events into operations (syntactic grouping, trusted) and replay_verdict, evaluated "
     "inside Coq for every accepted program, checks each step and the finished RQ (Model/LowererTrace.v; soundness: trace_replay_sound)",
-    "not in the trace, hence not compared: the path of an extern table (taken from the RQ), which expression an `alias` declare lowered (its cid is an input "
-    "of the operation), the reads of node_mapping by lookup_cid (only their results, inside the pushed transforms, are checked against the guard)",
+    "not in the trace, hence not compared: which expression an `alias` declare lowered (its cid is an input of the operation), the reads of node_mapping by "
+    "lookup_cid outside push_select (only their results, inside the pushed transforms, are checked against the guard); the key -> position mapping of "
+    "utils/toposort.rs is redone in python (c16_trace.toposort_case)",
+    "needs three hook patches that are not in /repo yet (hooks/push-select.diff, extern-kind.diff, toposort-tables.diff): without them the check fails closed",
     "the resolver's scoping is not modelled: that every operation stays within the visible set (vstep) is established per program by the strict replay; "
     "the consequence rq_wf is then a theorem (strict_runs_emit_wf_rq), and the strict verdict is cross-checked against rq_diags on every program",
     "idgen_load (Model/Lowerer.v) is tied to utils/id_gen.rs by the id-load-bounds stream (ids at usize::MAX/2, MAX/2+1, MAX through json::to_rq + rq_to_sql)",
@@ -53,6 +56,7 @@ F5 = "C16-F5-group-partition-in-relational-argument"
 F6 = "C16-F6-relation-parameter-used-twice"
 F7 = "C16-F7-excluded-column-of-sub-pipeline"
 F8 = "C16-F8-let-value-used-twice"
+F9 = "C16-F9-select-in-group-drops-key"
 
 MISSING_ID_PANIC = re.compile(r"no entry found for key|cannot find cid|called `Option::unwrap\(\)` on a `None` value")
 ID_LOOKUP_FILES = ("sql/pq/context.rs", "sql/pq/anchor.rs", "sql/pq/positional_mapping.rs", "semantic/lowering.rs")
@@ -108,6 +112,71 @@ def let_value_twice(src):
         if len(re.findall(r"\b%s\b" % re.escape(name), src[m.end():])) >= 2:
             return True
     return False
+
+
+def paren_body(src, i):
+    """text between the parenthesis at src[i] and its match"""
+    depth = 0
+    for j in range(i, len(src)):
+        if src[j] == "(":
+            depth += 1
+        elif src[j] == ")":
+            depth -= 1
+            if depth == 0:
+                return src[i + 1:j]
+    return src[i + 1:]
+
+
+def select_in_group_body(src):
+    for m in re.finditer(r"\bgroup\s*(\{[^}]*\}|[\w.`]+)\s*\(", src):
+        if re.search(r"\bselect\b", paren_body(src, m.end() - 1)):
+            return True
+    return False
+
+
+def closing_select_readds(q, w):
+    """ids of relation w's closing Select that the Select immediately in front of it does not list although they were visible
+    before that Select (a `select` in a group body drops the group key, the lineage keeps it)"""
+    r = relation_at(q, w)
+    if r[1][0] != "KPipeline":
+        return set()
+    p = r[1][1]
+    if len(p) < 3 or p[-1][0] != "TSelect" or p[-2][0] != "TSelect":
+        return set()
+    vis = set()
+    for t in p[:-2]:
+        k = t[0]
+        if k == "TFrom":
+            vis |= set(c16_wf.tref_cids(t[1]))
+        elif k == "TJoin":
+            vis |= set(c16_wf.tref_cids(t[2]))
+        elif k == "TCompute":
+            vis |= {t[1]}
+        elif k == "TSelect":
+            vis = set(t[1])
+        elif k == "TAggregate":
+            vis = set(t[1]) | set(t[2])
+    return (set(p[-1][1]) - set(p[-2][1])) & vis
+
+
+def partition_ids(q, w):
+    """ids used as partition (group key) by a Take, an Aggregate or a window of relation w"""
+    r = relation_at(q, w)
+    out = set()
+
+    def walk(p):
+        for t in p:
+            if t[0] == "TTake":
+                out.update(t[2])
+            elif t[0] == "TAggregate":
+                out.update(t[1])
+            elif t[0] == "TCompute" and t[3] is not None:
+                out.update(t[3][3])
+            elif t[0] == "TLoop":
+                walk(t[1])
+    if r[1][0] == "KPipeline":
+        walk(r[1][1])
+    return out
 
 
 def exclusion_in_sub_pipeline(src):
@@ -185,7 +254,7 @@ def excluded_from_columns(q, w):
 
 
 def classify_diags(q, diags, src=""):
-    """id of the OPEN finding that explains ALL diagnostics of this RQ, or None (= VIOLATION).  Only F1, F6, F7 and F8 can be
+    """id of the OPEN finding that explains ALL diagnostics of this RQ, or None (= VIOLATION).  Only F1, F6, F7, F8 and F9 can be
     returned: the classes of the repaired findings (F2, F4, F5, the plain-aggregate half of F1) are not tolerated and
     are named by regression_of() in the violation text."""
     if not diags:
@@ -205,6 +274,10 @@ def classify_diags(q, diags, src=""):
         # bound to the sub-pipeline's own From column
         if exclusion_in_sub_pipeline(src) and all(d[0] == "DForeign" and d[3] in excluded_from_columns(q, d[1]) for d in rest):
             return F7
+        # F9: a `select` in a group body drops the group key, the closing Select (from the lineage) names it again
+        # (or a later transform of the group body / of the pipeline uses the key: it is a partition id of that relation)
+        if select_in_group_body(src) and all(d[0] == "DNotVisible" and (d[3] in closing_select_readds(q, d[1]) or d[3] in partition_ids(q, d[1])) for d in rest):
+            return F9
         return None
     return F1
 
